@@ -5,6 +5,7 @@
 package core
 
 import (
+	"bytes"
 	"encoding/json"
 	"fmt"
 	"hash/fnv"
@@ -411,8 +412,8 @@ func runFamily(c *Check, f *Family, tier string, res *result, deadline time.Time
 						if el <= thr || atomic.LoadInt64(&cur[w])-1 != i {
 							continue
 						}
-						if confirmHang(c, f, tier, i, 3*hangAfter) {
-							res.addFailure(hangFailure(c, f, i, 3*hangAfter))
+						if fl := stallFailure(c, f, tier, i, 3*hangAfter); fl != nil {
+							res.addFailure(*fl)
 							hung = true
 							atomic.StoreInt32(&stop, 1)
 							break watch
@@ -456,32 +457,71 @@ func hangFailure(c *Check, f *Family, i int64, limit time.Duration) Failure {
 		Observed: fmt.Sprintf("still running after %v, also when re-run alone in fresh processes", limit)}
 }
 
-// confirmHang re-runs case i alone in two fresh subprocesses, each allowed limit; it is
-// a hang only if neither finishes.
-func confirmHang(c *Check, f *Family, tier string, i int64, limit time.Duration) bool {
+// confirmCase re-runs case i alone in two fresh subprocesses (default stack limit),
+// each allowed limit. Result: "ok" (it finished at least once: slow, not stuck), "hang"
+// (never finished), or "stack-overflow" / "out-of-memory" / "fatal" (died every time).
+func confirmCase(c *Check, f *Family, tier string, i int64, limit time.Duration) (kind, detail string) {
 	exe, err := os.Executable()
 	if err != nil {
-		return false
+		return "ok", ""
 	}
 	tmp, err := os.MkdirTemp("", "mchang")
 	if err != nil {
-		return false
+		return "ok", ""
 	}
 	defer os.RemoveAll(tmp)
-	for k := 0; k < 2; k++ {
+	hangs, deaths := 0, 0
+	const runs = 2
+	for k := 0; k < runs; k++ {
 		cc := exec.Command(exe, c.ID, tier, "--family", f.Name, "--shard", "0/1", "--only", strconv.FormatInt(i, 10), "--out", filepath.Join(tmp, fmt.Sprintf("o%d", k)))
+		var eb bytes.Buffer
+		cc.Stderr = &tailWriter{buf: &eb, max: 1 << 16, headOnly: true}
 		killed := int32(0)
 		if err := cc.Start(); err != nil {
-			return false
+			return "ok", ""
 		}
 		ct := time.AfterFunc(limit, func() { atomic.StoreInt32(&killed, 1); cc.Process.Kill() })
-		cc.Wait()
+		werr := cc.Wait()
 		ct.Stop()
-		if atomic.LoadInt32(&killed) == 0 {
-			return false
+		switch {
+		case atomic.LoadInt32(&killed) != 0:
+			hangs++
+		case werr != nil:
+			deaths++
+			detail = fmt.Sprintf("%v: %s", werr, eb.String())
+		default:
+			return "ok", ""
 		}
 	}
-	return true
+	if hangs == runs {
+		return "hang", ""
+	}
+	if deaths == runs {
+		switch {
+		case strings.Contains(detail, "stack overflow") || strings.Contains(detail, "goroutine stack exceeds"):
+			return "stack-overflow", detail
+		case strings.Contains(detail, "out of memory") || strings.Contains(detail, "cannot allocate"):
+			return "out-of-memory", detail
+		}
+		return "fatal", detail
+	}
+	// one run was killed and one died: it does not return either way
+	return "hang", detail
+}
+
+// stallFailure turns the verdict of confirmCase into a failure (nil for "ok").
+func stallFailure(c *Check, f *Family, tier string, i int64, limit time.Duration) *Failure {
+	kind, detail := confirmCase(c, f, tier, i, limit)
+	if kind == "ok" {
+		return nil
+	}
+	fl := hangFailure(c, f, i, limit)
+	if kind != "hang" {
+		fl.Sig = f.Name + ":" + kind + ":" + hangClass(f, i)
+		fl.Expected = "returns a value or an error"
+		fl.Observed = clip(detail)
+	}
+	return &fl
 }
 
 // ---------------------------------------------------------------------------
